@@ -1057,6 +1057,7 @@ func readBodyFldParam(dec *imapwire.Decoder, options *Options) (map[string]strin
 	var (
 		params map[string]string
 		k      string
+		hasKey bool // k == "" is a legal string, it cannot double as the parser state
 	)
 	err := dec.ExpectNList(func() error {
 		var s string
@@ -1064,8 +1065,9 @@ func readBodyFldParam(dec *imapwire.Decoder, options *Options) (map[string]strin
 			return dec.Err()
 		}
 
-		if k == "" {
+		if !hasKey {
 			k = s
+			hasKey = true
 		} else {
 			if params == nil {
 				params = make(map[string]string)
@@ -1074,14 +1076,14 @@ func readBodyFldParam(dec *imapwire.Decoder, options *Options) (map[string]strin
 			// TODO: handle error
 
 			params[strings.ToLower(k)] = decoded
-			k = ""
+			hasKey = false
 		}
 
 		return nil
 	})
 	if err != nil {
 		return nil, err
-	} else if k != "" {
+	} else if hasKey {
 		return nil, fmt.Errorf("in body-fld-param: key without value")
 	}
 	return params, nil
